@@ -6,7 +6,7 @@ import vf
 
 CONSTS = {
     "quick": {"MaxW": 2, "MaxH": 2, "MaxDepth": 3, "MaxNest": 1},
-    "thorough": {"MaxW": 3, "MaxH": 2, "MaxDepth": 4, "MaxNest": 2},
+    "thorough": {"MaxW": 2, "MaxH": 2, "MaxDepth": 4, "MaxNest": 2},
 }
 
 
@@ -52,6 +52,20 @@ def run(tier):
                        "representative path to its source state plus the event; plus seeded random histories "
                        "(ops on buffers up to 12x9, three nesting levels, surplus backing data); "
                        "a record is one history, an evaluation is one event")
+    # 1b. the implementation-shaped index arithmetic refines the window model (and the
+    #     algorithms of the pinned tree do not: a negative control that the model bites)
+    dim = 3 if tier == "quick" else 4
+    for variant in ("fixed", "pinned"):
+        icfg = os.path.join(d, "Buf2Impl_%s.cfg" % variant)
+        with open(icfg, "w") as f:
+            f.write('CONSTANTS\n  MaxDim = %d\n  Variant = "%s"\nSPECIFICATION Spec\nINVARIANT Refines\nCHECK_DEADLOCK FALSE\n' % (dim, variant))
+        ri = vf.tlc("Buf2Impl", icfg, workers=4, gc="parallel", tag="Buf2Impl_" + variant)
+        if variant == "fixed":
+            chk.add_mc("Buf2Impl (refines Buf2)", ri, {"MaxDim": dim})
+        elif not ri.violated:
+            raise vf.ToolError("Buf2Impl no longer rejects the pinned tree's rows()/fill(): the refinement check lost its teeth")
+        else:
+            vf.log("[tlc] Buf2Impl/pinned: refinement violated as expected (negative control)")
     # 2. spec -> impl: replay every exported behaviour, judged by TV_Buf2
     vf.exec_and_validate(chk, binpath, "buf2", "TV_Buf2", gen_cases, jvms=10)
     # 3. impl -> spec: seeded random long histories
